@@ -396,15 +396,28 @@ def write_replay(ctx, n, payload):
 
 def eval_cases(ctx, cases, outs, tag="cases", want_model=False):
     """Run model + oracle inside Coq over (case, impl observation) pairs.
-    Returns dict index -> code (bit0: model != impl, bit1: oracle false on impl obs),
-    or raises CoqEvalError."""
+    Returns dict index -> code (bit0: model != impl, bit1: oracle false on impl obs,
+    bit2: the observation could not even be written as a term of the model's observation type,
+    i.e. it lies outside the model's domain — counted as a correspondence mismatch),
+    or raises CoqEvalError when nothing can be evaluated at all."""
     p = ctx.p
     codes = {}
     shard = getattr(p, "COQ_SHARD", 400)
-    for s0 in range(0, len(cases), shard):
+    counter = [0]
+
+    def run(idxs, depth):
         terms = []
-        for i in range(s0, min(len(cases), s0 + shard)):
-            terms.append("(%d, %s)" % (i, p.coq_case(cases[i], outs[i])))
+        unprintable = []
+        for i in idxs:
+            try:
+                terms.append("(%d, %s)" % (i, p.coq_case(cases[i], outs[i])))
+            except Exception as ex:   # the plugin's printer rejected the observation
+                unprintable.append(i)
+                ctx.notes.append("case %d: observation not printable as a model term: %s" % (i, str(ex)[:200]))
+        for i in unprintable:
+            codes[i] = codes.get(i, 0) | 5
+        if not terms:
+            return
         txt = "From Coq Require Import NArith ZArith List Bool String.\nImport ListNotations.\n"
         txt += "From Dolt Require Import %s.\n" % p.COQ_CORR_MODULE
         txt += "Local Open Scope N_scope.\n"
@@ -414,17 +427,30 @@ def eval_cases(ctx, cases, outs, tag="cases", want_model=False):
                 "Print VERDICTS.\n") % p.COQ_CHECK
         if want_model and hasattr(p, "COQ_MODEL_OBS"):
             txt += "Eval vm_compute in map (fun c => (fst c, %s (snd c))) cases.\n" % p.COQ_MODEL_OBS
-        name = "%s_%d" % (tag, s0 // shard)
+        counter[0] += 1
+        name = "%s_%d" % (tag, counter[0])
         rc, o, e = coq_eval(ctx.work, name, txt, timeout=getattr(p, "COQ_EVAL_TIMEOUT", 900))
-        if rc != 0:
-            raise CoqEvalError("coqc %s.v failed (rc=%d):\n%s" % (name, rc, (o + e)[-3000:]))
-        v = parse_verdicts(o)
+        v = parse_verdicts(o) if rc == 0 else None
         if v is None:
-            raise CoqEvalError("could not parse verdicts:\n" + o[-2000:])
+            live = [i for i in idxs if i not in unprintable]
+            if len(live) > 1 and depth < 12 and "Corr" not in (e or "")[:0]:
+                # isolate the offending case(s): a single ill-typed / out-of-domain term must not hide the others
+                h = len(live) // 2
+                run(live[:h], depth + 1)
+                run(live[h:], depth + 1)
+                return
+            if len(live) == 1 and depth > 0:
+                codes[live[0]] = codes.get(live[0], 0) | 5
+                ctx.notes.append("case %d: coqc rejected the term: %s" % (live[0], (o + e)[-400:]))
+                return
+            raise CoqEvalError("coqc %s.v failed (rc=%d):\n%s" % (name, rc, (o + e)[-3000:]))
         for i, c in v:
             codes[i] = c
         if want_model:
             ctx.last_model_dump = o
+
+    for s0 in range(0, len(cases), shard):
+        run(list(range(s0, min(len(cases), s0 + shard))), 0)
     return codes
 
 
